@@ -1,5 +1,5 @@
 (* CorrC13.v — correspondence checker for C13 (timeline). *)
-From Pyro Require Export Corr.StorCorr.
+From Pyro Require Export Corr.StorCorr Corr.FbTree.
 Local Open Scope Z_scope.
 
 Record case := { c_ops : list hop }.
